@@ -114,6 +114,29 @@ CLAIMED = {
             'the AST on every run and Tie/ThreadProg.v re-proves its safety hypothesis; each real execution is replayed on the '
             'model (traces_validated_against_impl).',
             'Partial: bytecode-level switches inside a line, the GIL / free-threaded builds and C-level atomicity are not modelled.', 'DESIGN.md section 4 C20'),
+    'C01': ('Coq proof (partial: literals of the parsed expression = license tokens in order; every reported match spans word pieces '
+            'spelling a stored name; names stored under the words of their key / alias; every token is the slice of the text) + '
+            'word-accounting oracle and token-triple correspondence on generated tables x texts',
+            'Theorems over the boolean parser machine, the Aho-Corasick scan and Trie.tokenize; the coverage link (tokens after '
+            'overlap filtering cover every word exactly once) is decided by the accounting oracle on every generated case.',
+            'Partial proof, see Props/C01.v header.', 'DESIGN.md section 4 C01'),
+    'C04': ('Coq proof (partial: a text whose lower-cased words are a stored name is matched over its whole span with that name\'s '
+            'value; look-ups depend only on lower-cased words; the overlap filter keeps disjoint input tokens in order) + every '
+            'name of generated tables in case / white-space variants and 12 operator contexts',
+            'Theorems over the matcher model for every table and text; survival of the whole-span match through the overlap '
+            'filter and the operator contexts are decided by the oracle (expected tree built from the intended symbols).',
+            'Partial proof, see Props/C04.v header.', 'DESIGN.md section 4 C04'),
+    'C15': ('Kernel computation on the index regenerated from the JSON on every run (both tables build, known keys, deprecated / '
+            'SPDX-less unknown) + Coq proof for any index (builds iff unambiguous; names matched over their span, partial) + '
+            'exhaustive sweep of all bundled names and synthetic indexes against the model',
+            'vm_compute facts in Tie/Index.v over gen/Index.v (2310 entries) and general theorems from C04 / C14; recognition of '
+            'every name in three letter cases, rendering, validation and flags are swept on the real bundled Licensings.',
+            'The shipped index is ASCII; the ASCII part of the oracle is used for the computation.', 'DESIGN.md section 4 C15'),
+    'C18': ('Coq proof (partial: with single-word names the default scan is a per-word look-up with the piece\'s positions and text) '
+            '+ exhaustive token strings under both tokenizers, strict and non-strict, two layouts',
+            'Theorem single_word_scan from the Aho-Corasick exactness theorem; the remaining steps of the agreement are decided '
+            'by comparing both tokenizers of the implementation (and of the model) on all isolated-word token strings up to the bound.',
+            'Partial proof, see Props/C18.v header.', 'DESIGN.md section 4 C18'),
 }
 
 NOT_YET = 'check under construction in this session; see DESIGN.md section 4 for the planned theorem'
